@@ -92,6 +92,18 @@ theorem run_decDecArrInt (xs : List Int) (r : Bytes) (hl : xs.length < 214748364
     rw [narrow32_id x (h x (by simp)), ih (by simp at hl ⊢; omega)
       (fun y hy => h y (by simp [hy])) (fun y hy => h8 y (by simp [hy]))]
 
+/-! ### Write(b, off, sz): a window of a slice -/
+
+/-- `Write(b, off, sz)` appends `b[off : off+sz]` and counts `sz` -/
+def Writer.window (w : Writer) (b : Bytes) (off sz : Nat) : Writer := w.put ((b.drop off).take sz)
+
+theorem Writer.window_spec (w : Writer) (b : Bytes) (off sz : Nat) (h : off + sz ≤ b.length) :
+    (w.window b off sz).buf = w.buf ++ (b.drop off).take sz ∧
+    (w.window b off sz).written = w.written + sz := by
+  unfold Writer.window
+  refine ⟨Writer.put_buf w _, ?_⟩
+  simp [Writer.put, List.length_take, List.length_drop]; omega
+
 /-! ### frame headers -/
 
 /-- `WriteHeader` / `WriteOneWayHeader`: source, version, project code, license hash, then the
